@@ -818,6 +818,13 @@ pub fn check_conc(
             } else if !panics_alone.contains(&(*t, *i))
               && !m.contains("rspack_sources_verif: precondition")
               && !crate::strict::is_overflow_panic(m)
+              // C18's fault model: a cancelled stream must leave no lock held or
+              // poisoned. Other history-dependent panics are single-threaded
+              // defects that C10 / C14 decide; here the scenario is skipped.
+              && (m.contains("PoisonError")
+                || order.iter().take_while(|x| *x != &(*t, *i)).any(|(tt, ii)| {
+                  matches!(seq.answers[*tt][*ii], Answer::Aborted { .. })
+                }))
             {
               violations.push(Violation {
                 kind: "panic".into(),
@@ -924,11 +931,14 @@ pub fn check_conc(
         continue;
       }
       if let Answer::Panicked(m) = a {
-        if crate::strict::is_overflow_panic(m)
-          && crate::strict::is_positional_op(&op.kind)
-          && (gated || fragile[op.obj] || !ascii[op.obj])
+        if crate::strict::is_positional_op(&op.kind)
+          && !m.contains("PoisonError")
+          && !m.contains("rspack_sources_verif: precondition")
+          && (fragile[op.obj] || (crate::strict::is_overflow_panic(m) && (gated || !ascii[op.obj])))
         {
-          counters.inc("overflow_in_position_arithmetic_not_judged");
+          // positional arithmetic of a composite above a re-chunking cache
+          // (recorded finding) or overflow checks on a non-ASCII / gated tree
+          counters.inc("positional_panic_not_judged");
           continue;
         }
         // C19 (no answer comparison; under Miri not even baselines): a plain
@@ -1006,9 +1016,10 @@ pub fn check_conc(
       for (k, a) in answers.iter().enumerate() {
         if let Answer::Panicked(m) = a {
           // a panic that the sequential tail shows too is out of domain
-          let tolerated = crate::strict::is_overflow_panic(m)
-            && crate::strict::is_positional_op(&TAIL_OPS[k])
-            && (gated || fragile[o] || !ascii[o]);
+          let tolerated = crate::strict::is_positional_op(&TAIL_OPS[k])
+            && !m.contains("PoisonError")
+            && !m.contains("rspack_sources_verif: precondition")
+            && (fragile[o] || (crate::strict::is_overflow_panic(m) && (gated || !ascii[o])));
           if !tolerated && !allowed_tail[o][k].contains(&Key::Panicked) {
             violations.push(Violation {
               kind: "panic_after_run".into(),
